@@ -189,14 +189,14 @@ pub fn run(ctx: &Ctx, rep: &mut Report) {
                 for bytes in [64usize, 66] {
                     cases.push(base.clone().with("test", "dense").with("bytes", bytes).with("seed", ctx.seed));
                 }
-                let thin = !ctx.thorough() && (slow || k + r > 6) || ctx.thorough() && slow && k + r > 8;
+                let thin = !ctx.thorough() && (slow && k + r > 4 || k + r > 8) || ctx.thorough() && slow && k + r > 8;
                 for i in 0..k {
                     if thin && i != (k + r) % k {
                         continue;
                     }
                     cases.push(base.clone().with("test", "axis").with("i", i).with("x", (i + r) % 2));
                     for b in 0..16 {
-                        if thin && b != (i + r) % 16 || !ctx.thorough() && (b + i + k) % 4 != 0 {
+                        if thin && b != (i + r) % 16 || !ctx.thorough() && (b + i + k) % 2 != 0 {
                             continue;
                         }
                         cases.push(base.clone().with("test", "scalar").with("i", i).with("b", b));
@@ -206,7 +206,7 @@ pub fn run(ctx: &Ctx, rep: &mut Report) {
         }
     }
     rep.bound("cfg", J::s(format!("[1..{kmax}]^2{} x {{high,low}} x {{naive,nosimd,ssse3,avx2,neonemu}}", if ctx.thorough() { " + (33,3) (3,33)" } else { "" })));
-    rep.bound("axis_scalar_thinning", J::s("quick: for slow engines or k+r>6 one fixed axis and one fixed bit per configuration, else every axis and every 4th bit; thorough: every axis and bit except slow engines with k+r>8 (one fixed axis/bit)"));
+    rep.bound("axis_scalar_thinning", J::s("quick: for slow engines with k+r>4 and for k+r>8 one fixed axis and one fixed bit per configuration, else every axis and every 2nd bit; thorough: every axis and bit except slow engines with k+r>8 (one fixed axis/bit)"));
     let results: Vec<Result<u64, V>> = par_for(cases.len(), 1, |i| match guard(|| run_case(&f, &cases[i])) {
         Ok(r) => r,
         Err(p) => Err(("no panic".into(), format!("PANIC: {p}"))),
